@@ -333,6 +333,9 @@ func (p *c09Prop) Run(ci interface{}) interface{} {
 	if c.Kind == "sweep" {
 		return p.runSweep(c)
 	}
+	if c.Kind == "acked" {
+		return p.runAcked(c)
+	}
 	if c.Kind == "params" {
 		return p.runParams(c)
 	}
@@ -646,10 +649,12 @@ func (p *c09Prop) runGated(c *c09Case) interface{} {
 		}
 		m := mqttp.NewPublish(mqttp.ProtocolV311)
 		_ = m.Set("p/q", []byte{0, 7}, 1, true, false)
-		_ = e.prov.Retain(m)
-		time.Sleep(50 * time.Millisecond) // the retainer goroutine takes it up
+		// Retain stores before it returns: like the subscribes of cleanup-vs-insert it waits for the held unsubscribe
+		ar := make(chan struct{})
+		go func() { _ = e.prov.Retain(m); close(ar) }()
+		time.Sleep(50 * time.Millisecond) // it has reached the structure lock
 		close(cleanGate)
-		if !wait(a1, "unsubscribe not acknowledged") {
+		if !wait(a1, "unsubscribe not acknowledged") || !wait(ar, "Retain did not return") {
 			return obs
 		}
 		if !e.retBarrier() {
@@ -833,6 +838,42 @@ func (p *c09Prop) runParams(c *c09Case) interface{} {
 	return obs
 }
 
+// acked: K rounds of "Retain(m) has returned, then Subscribe": the operations are issued one after the other by ONE
+// caller, so the order consistent with their acknowledgements is the order of the calls - the subscription is handed
+// the retained message
+func (p *c09Prop) runAcked(c *c09Case) interface{} {
+	obs := &c09Obs{}
+	e, err := newC09Env(nil)
+	if err != nil {
+		obs.Err = err.Error()
+		return obs
+	}
+	defer e.prov.Shutdown()
+	lost := 0
+	for it := 0; it < c.K; it++ {
+		topic := fmt.Sprintf("ak/%d/t", it)
+		m := mqttp.NewPublish(mqttp.ProtocolV50)
+		_ = m.Set(topic, []byte{0, 1}, 1, true, false)
+		_ = e.prov.Retain(m)
+		if it%2 == 1 {
+			// as a client's retained PUBLISH does: stored AND routed
+			_ = e.prov.Publish(m)
+		}
+		st := &hashGate{id: 1000 + it, mu: &e.mu, recv: &e.recv}
+		// Retain Handling 0: send retained messages at the time of the subscribe
+		resp := e.prov.Subscribe(topicsTypes.SubscribeReq{Filter: topic, S: st, Params: vlsubscriber.SubscriptionParams{Ops: mqttp.SubscriptionOptions(1)}})
+		if resp.Err != nil {
+			obs.Err = resp.Err.Error()
+			return obs
+		}
+		if len(resp.Retained) != 1 {
+			lost++
+		}
+	}
+	obs.Lost = &lost
+	return obs
+}
+
 func (p *c09Prop) runSweep(c *c09Case) interface{} {
 	obs := &c09Obs{}
 	e, err := newC09Env(nil)
@@ -938,6 +979,12 @@ func (p *c09Prop) Coq(ci interface{}, oi interface{}) string {
 			return "(mkCase9 [] false)"
 		}
 		return fmt.Sprintf("(mkCase9 [HSweep %d %d] %s)", c.K, *o.Lost, cBool(o.Err == ""))
+	}
+	if c.Kind == "acked" {
+		if o.Lost == nil {
+			return "(mkCase9 [] false)"
+		}
+		return fmt.Sprintf("(mkCase9 [HAcked %d %d] %s)", c.K, *o.Lost, cBool(o.Err == ""))
 	}
 	if c.Kind == "replace" {
 		if o.Rep == nil {
